@@ -209,6 +209,11 @@ func genC08(seed int64, tier string) []caseOut {
 	}
 	out = append(out, builderRefusals(r)...)
 	out = append(out, concurrentBuilds(r)...)
+	nb := 64
+	if tier == "thorough" {
+		nb = 600
+	}
+	out = append(out, builderModelCases(rand.New(rand.NewSource(seed+77)), nb)...)
 	return out
 }
 
@@ -894,7 +899,7 @@ func builderRefusals(r *rand.Rand) []caseOut {
 }
 
 func init() {
-	generators["C08"] = generator{"c08case", "judge_c08", histImports + "From Sidetree Require Import Harness.ClientCases.\n", genC08}
+	generators["C08"] = generator{"c08case", "judge_c08", histImports + "From Coq Require Import NArith.\nFrom Sidetree Require Import Sidetree.Parser Sidetree.ClientCreate Sidetree.ClientUpdate Sidetree.ClientDeactivateRecover Harness.ClientCases.\n", genC08}
 }
 
 type roundTripFunc func(*http.Request) (*http.Response, error)
